@@ -271,8 +271,9 @@ type checker struct {
 	classes *tally
 	samples *core.Sampler
 
-	memViolations int64
-	notes         *tally
+	memViolations   int64
+	makeslicePanics int64 // allocation-size panics of a decoder that was given a finite limit
+	notes           *tally
 }
 
 // tally is a concurrent histogram.
@@ -495,6 +496,9 @@ func (c *checker) offer(f *family, entry string, in []byte, lmt int, mut string)
 		return kase{Phase: "decode", Family: f.Name, Entry: entry, Limit: lmt, Hex: hex.EncodeToString(in), Mut: mut}
 	}
 	if o.Panicked {
+		if lmt != 0 && strings.Contains(o.PanicVal, "makeslice") {
+			atomic.AddInt64(&c.makeslicePanics, 1)
+		}
 		k := mk()
 		sig := c.panicSig(o, len(in), strings.HasPrefix(mut, "bomb") && (lmt == 0))
 		c.report(sig, k, fmt.Sprintf("%s into %s (limit %d) panics on %d input bytes %x [%s]: %s", entry, f.Name, lmt, len(in), clip(in), mut, o.PanicVal))
@@ -586,9 +590,16 @@ var substBytes = []byte{0x00, 0x01, 0x7f, 0x80, 0xff}
 
 // mutateBinary offers every truncation and every single-byte substitution of
 // one binary encoding, with every finite limit around its length.
-func (c *checker) mutateBinary(f *family, enc []byte, local map[string]int) {
+func (c *checker) mutateBinary(f *family, enc []byte, allLimits bool, local map[string]int) {
 	run := func(in []byte, mut string) {
-		for _, lmt := range finiteLimitsFor(len(in)) {
+		lims := finiteLimitsFor(len(in))
+		if !allLimits {
+			lims = []int{1, len(in)}
+			if len(in) <= 1 {
+				lims = []int{1}
+			}
+		}
+		for _, lmt := range lims {
 			local[f.Name+"/ReadBinary/"+c.offer(f, "ReadBinary", in, lmt, mut)]++
 		}
 		if f.DecodeMsg != nil {
